@@ -426,10 +426,16 @@ Definition f_getitem (pol : upolicy) (obj key dflt : val) : res val :=
   | e => e
   end.
 
-(** Filter.evaluate (expressions.py:843-853): a TypeError escaping the filter
-    function becomes LiquidTypeError. *)
+(** Filter.evaluate (expressions.py): a TypeError, ValueError or
+    ArithmeticError (OverflowError, ZeroDivisionError, decimal.InvalidOperation)
+    escaping the filter function becomes LiquidTypeError; KeyError and
+    IndexError still escape. *)
 Definition wrap_type_error {A} (r : res A) : res A :=
-  match r with PyExc TypeError => LErr LiquidTypeError None | _ => r end.
+  match r with
+  | PyExc TypeError | PyExc ValueError | PyExc OverflowError
+  | PyExc ZeroDivisionError | PyExc DecimalInvalidOperation => LErr LiquidTypeError None
+  | _ => r
+  end.
 
 (** filter.py:_flatten (level 5, lists only in this value universe). *)
 Fixpoint flatten (level : nat) (l : list val) {struct level} : list val :=
@@ -575,8 +581,14 @@ Definition liq_contains (pol : upolicy) (l r : val) : res bool :=
       match r with
       | VStr k => Ok (match assoc k kvs with Some _ => true | None => false end)
       | VNil | VBool _ | VInt _ => Ok false
-      | VList _ | VDict _ => PyExc TypeError        (* unhashable *)
-      | VUndef _ => do _ <- poke pol DHash;; Ok false
+      | VList _ | VDict _ => Ok false       (* unhashable: TypeError from [right in left] is caught *)
+      | VUndef _ =>
+          (* hash(undefined): UndefinedError propagates; the TypeError of the
+             unhashable FalsyStrictUndefined is caught like any other *)
+          match poke pol DHash with
+          | PyExc TypeError => Ok false
+          | r => do _ <- r;; Ok false
+          end
       end
   | VUndef _ => do _ <- poke pol DContains;; Ok false
   | VNil | VBool _ | VInt _ => LErr LiquidTypeError None
@@ -692,8 +704,8 @@ Definition f_concat (pol : upolicy) (left other : val) : res val :=
 Definition is_nil (v : val) : bool := match v with VNil => true | _ => false end.
 
 (** CompactFilter (filtering_filters.py): with a key, [_property(itm, key)]
-    (a missing key is nil; IndexError escapes; TypeError becomes LiquidTypeError
-    with a message that formats the key). *)
+    (a missing key or an index out of range is nil; TypeError becomes
+    LiquidTypeError with a message that formats the key). *)
 Definition f_compact (pol : upolicy) (left : val) (key : option val) : res val :=
   do items <- sequence_arg pol left;;
   match key with
@@ -704,7 +716,7 @@ Definition f_compact (pol : upolicy) (left : val) (key : option val) : res val :
                          | PyExc TypeError =>
                              do _ <- match k with VUndef _ => poke pol DStr | _ => Ok tt end;;
                              LErr LiquidTypeError None
-                         | PyExc KeyError => Ok false
+                         | PyExc KeyError | PyExc IndexError => Ok false
                          | Ok x => Ok (negb (is_nil x))
                          | LErr c p => LErr c p
                          | PyExc e => PyExc e
